@@ -361,7 +361,7 @@ def c11_cli(ctx, broken):
             return viol("build_and_merge with this thread count differs from the serial table", threads=threads, nsamples=n, k=k,
                         model_case=line, code=r[:400], model=m[:400], spec=s[:400])
         nontriv += 1
-    for fam, nsamp in [(f, n) for n in sample_counts for f in ("random", "isolated", "indels")]:
+    for fam, nsamp in [(f, n) for n in sample_counts for f in ("random", "isolated", "indels", "pairs")]:
         k = rnd.choice([15, 17, 31, 33])
         d = fresh_dir(ctx, "c11cli")
         L = 400 if fam == "random" else 700
@@ -375,6 +375,14 @@ def c11_cli(ctx, broken):
             alt = rnd.choice([c for c in "ACGT" if c != base[p]])
             for c in rnd.sample(range(nsamp), rnd.randint(1, nsamp - 1)):
                 seqs[c][p] = alt
+        if fam == "pairs":
+            # a second SNP k-2, k-1 or k bases after every other site: both in one variant group, the
+            # k-mer that starts at the first ends at the second (their blocking sets interact)
+            for p in sites[::2]:
+                q = p + rnd.choice([k - 2, k - 1, k - 1, k])
+                alt = rnd.choice([c for c in "ACGT" if c != base[q]])
+                for c in rnd.sample(range(nsamp), rnd.randint(1, nsamp - 1)):
+                    seqs[c][q] = alt
         if fam == "indels":
             # every other site also carries an insertion a few bases upstream of the SNP (all four
             # haplotypes when there are enough samples): two indel bubbles opening at the same k-mer
@@ -902,7 +910,9 @@ def c03_cli(ctx, broken):
         tries += 1
         k = rnd.choice(list(range(5, 64, 2)) if thorough else [5, 7, 9, 11, 15, 17, 21, 31, 33, 41, 63])
         h = (k - 1) // 2
-        nsamp = rnd.randint(2, 10)
+        # 10 samples is where the parallel build starts (with --threads >= 2): drawn often
+        nsamp = 10 if rnd.random() < 0.25 else rnd.randint(2, 10)
+        threads = rnd.choice([2, 4, 8]) if (nsamp == 10 and rnd.random() < 0.8) else rnd.choice([1, 1, 2])
         # small k needs short contigs to be repeat free
         maxlen = {5: 14, 7: 40, 9: 120}.get(k, 300)
         ncontig = rnd.randint(1, 3)
@@ -936,11 +946,11 @@ def c03_cli(ctx, broken):
             f = os.path.join(d, f"s{si}.fa")
             write_fasta(f, recs)
             files.append(f)
-        args = ["build", "-o", os.path.join(d, "x"), "-k", str(k)] + ([] if rc else ["--single-strand"]) + files
+        args = ["build", "-o", os.path.join(d, "x"), "-k", str(k), "--threads", str(threads)] + ([] if rc else ["--single-strand"]) + files
         code, out, err = ska(args, d)
         if code != 0:
-            return {"summary": {"evaluations": evals, "nontrivial": nontriv}, "violation": {"kind": "c03-family", "what": "build failed", "stderr": err[-300:], "k": k, "family": seqs}}
-        code, out, err = ska(["align", os.path.join(d, "x.skf"), "--min-freq", "1"], d)
+            return {"summary": {"evaluations": evals, "nontrivial": nontriv}, "violation": {"kind": "c03-family", "what": "build failed", "stderr": err[-300:], "k": k, "threads": threads, "family": seqs}}
+        code, out, err = ska(["align", os.path.join(d, "x.skf"), "--min-freq", "1", "--threads", str(threads)], d)
         evals += 1
         if code != 0:
             return {"summary": {"evaluations": evals, "nontrivial": nontriv}, "violation": {"kind": "c03-family", "what": "align failed", "stderr": err[-300:], "k": k, "family": seqs}}
@@ -963,19 +973,20 @@ def c03_cli(ctx, broken):
             samples.append({"k": k, "rc": rc, "samples": nsamp, "contigs": [len(c) for c in anc], "sites": sites[:8], "columns": cols[:8]})
         if not ok:
             return {"summary": {"evaluations": evals, "nontrivial": nontriv},
-                    "violation": {"kind": "c03-family", "what": "alignment is not exactly the planted SNP columns", "k": k, "rc": rc, "sites": sites,
+                    "violation": {"kind": "c03-family", "what": "alignment is not exactly the planted SNP columns under the sample names in input order", "k": k, "rc": rc, "threads": threads, "sites": sites,
                                   "expected": want, "observed": got, "names": names, "family": seqs}}
         # the default-k path: `ska align <fastas>` builds with k=17, both strands
         if k == 17 and rc:
-            code, out2, err = ska(["align"] + files + ["--min-freq", "1"], d)
+            code, out2, err = ska(["align"] + files + ["--min-freq", "1", "--threads", str(threads)], d)
             evals += 1
             a2 = [l for l in out2.splitlines() if not l.startswith(">")]
+            n2 = [l[1:] for l in out2.splitlines() if l.startswith(">")]
             c2 = sorted(norm("".join(x[i] for x in a2)) for i in range(len(a2[0]))) if a2 and a2[0] else []
-            if code != 0 or c2 != want:
+            if code != 0 or c2 != want or n2 != [f"s{i}" for i in range(nsamp)]:
                 return {"summary": {"evaluations": evals, "nontrivial": nontriv},
                         "violation": {"kind": "c03-family", "what": "`ska align <fastas>` differs from the planted SNP columns", "k": k, "sites": sites, "family": seqs}}
     return {"summary": {"evaluations": evals, "nontrivial": nontriv, "families_rejected_by_repeat_check": tries - evals,
-                        "what": "repeat-free ancestors (checked), isolated substitutions at the exact boundary distances, 2-10 samples, 1-3 contigs permuted / reverse-complemented per sample; expected = exactly the planted columns up to complementing a column; names in input order; equal lengths"},
+                        "what": "repeat-free ancestors (checked), isolated substitutions at the exact boundary distances, 2-10 samples (10 = start of the parallel build, drawn often, threads 1-8), 1-3 contigs permuted / reverse-complemented per sample; expected = exactly the planted columns up to complementing a column; names in input order; equal lengths"},
             "samples": samples}
 
 
